@@ -1,78 +1,84 @@
 /-
-  DWVW decoder, call structure: how `dwvw_decode_data` behaves when one request is cut into several calls.  The loop
-  body is the same in every iteration except for the test `b.end == 0 && count == 0`, which looks at the call
-  boundary; `tailStart` is the state in which that test fires.
+  DWVW decoder, call structure: how `dwvw_decode_data` behaves when one request is cut into several calls.  Since the
+  repair of KF-DWVW-TAIL-CALL the loop body is the same in every iteration (the end test `b.end == 0 && bit_count <
+  pad_bits` looks at the reservoir, not at the call boundary), so a call of `a + b` cells IS a call of `a` cells
+  followed by a call of `b` cells (`decLoop_add`).  `tailStart` is the state in which the test of the old rule
+  (`b.end == 0 && count == 0`, SfModel/DwvwOld.lean) fired at the start of a call.
 -/
 import SfProofs.DwvwBits
+import SfModel.DwvwOld
 namespace Sf.Dwvw.Proofs
 open Sf Sf.Dwvw
 
-/-- the look-ahead of the next sample finds (or has found) the end of the file: a call that starts here delivers
-    nothing (known finding KF-DWVW-TAIL-CALL) -/
+/-- the look-ahead of the next sample finds (or has found) the end of the file: under the OLD rule a call that started
+    here delivered nothing (class of the repaired KF-DWVW-TAIL-CALL) -/
 def tailStart (c : Cfg) (d : DSt) : Prop := (getDwm c d).1.endZero = true
 
 instance (c : Cfg) (d : DSt) : Decidable (tailStart c d) := by unfold tailStart; infer_instance
 
-theorem decStep_first_irrelevant (c : Cfg) (d : DSt) (h : ¬ tailStart c d) : decStep c true d = decStep c false d := by
-  unfold tailStart at h
-  unfold decStep
-  simp only [h, Bool.false_eq_true, false_and, and_false]
+theorem decLoop_zero (c : Cfg) (d : DSt) : decLoop c 0 d = (d, []) := rfl
 
-theorem decLoop_first_irrelevant (c : Cfg) (n : Nat) (d : DSt) (h : ¬ tailStart c d) : decLoop c true n d = decLoop c false n d := by
-  cases n with
-  | zero => rfl
-  | succ n => simp only [decLoop, decStep_first_irrelevant c d h]
-
-theorem decLoop_zero (c : Cfg) (first : Bool) (d : DSt) : decLoop c first 0 d = (d, []) := by
-  cases first <;> rfl
-
-/-- one call of `a + b` cells = a call of `a` cells followed, when it was not cut short, by the loop continuing
-    (with `count ≠ 0`) for `b` cells -/
-theorem decLoop_add (c : Cfg) (first : Bool) (a b : Nat) (d : DSt) (ha : 0 < a) :
-    decLoop c first (a + b) d =
-      if (decLoop c first a d).2.length = a then
-        ((decLoop c false b (decLoop c first a d).1).1, (decLoop c first a d).2 ++ (decLoop c false b (decLoop c first a d).1).2)
-      else decLoop c first a d := by
-  induction a generalizing first d with
-  | zero => omega
+/-- one call of `a + b` cells = a call of `a` cells followed, when it was not cut short, by a call of `b` cells -/
+theorem decLoop_add (c : Cfg) (a b : Nat) (d : DSt) :
+    decLoop c (a + b) d =
+      if (decLoop c a d).2.length = a then
+        ((decLoop c b (decLoop c a d).1).1, (decLoop c a d).2 ++ (decLoop c b (decLoop c a d).1).2)
+      else decLoop c a d := by
+  induction a generalizing d with
+  | zero => simp [decLoop_zero]
   | succ a ih =>
     have e : a + 1 + b = (a + b) + 1 := by omega
     rw [e]
     simp only [decLoop]
-    cases hs : decStep c first d with
+    cases hs : decStep c d with
     | stop d1 => simp
     | sample d1 x =>
       simp only
       split
       · simp
-      · by_cases ha0 : a = 0
-        · subst ha0
-          simp [decLoop_zero]
-        · rw [ih false d1 (by omega)]
-          split <;> simp_all
+      · rw [ih d1]
+        split <;> simp_all
 
-/-- calls that are never cut short and never start in the tail -/
-def safeCalls (c : Cfg) : DSt → List Nat → Prop
+/-- a call never delivers more than it was asked for -/
+theorem decLoop_length_le (c : Cfg) (n : Nat) (d : DSt) : (decLoop c n d).2.length ≤ n := by
+  induction n generalizing d with
+  | zero => simp [decLoop_zero]
+  | succ n ih =>
+    simp only [decLoop]
+    cases hs : decStep c d with
+    | stop d1 => simp
+    | sample d1 x =>
+      simp only
+      split
+      · simp
+      · have := ih d1
+        simp only [List.length_cons]; omega
+
+/-- calls none of which is cut short (the last one may be) -/
+def fullCalls (c : Cfg) : DSt → List Nat → Prop
   | _, [] => True
-  | d, n :: ns =>
-    (decodeData c n d).2.length = n ∧ (ns.sum = 0 ∨ ¬ tailStart c (decodeData c n d).1) ∧ safeCalls c (decodeData c n d).1 ns
+  | d, n :: ns => (ns.sum = 0 ∨ (decodeData c n d).2.length = n) ∧ fullCalls c (decodeData c n d).1 ns
 
-theorem decodeCalls_flatten (c : Cfg) (d : DSt) (ns : List Nat) (h : safeCalls c d ns) :
+theorem decodeCalls_flatten (c : Cfg) (d : DSt) (ns : List Nat) (h : fullCalls c d ns) :
     (decodeCalls c d ns).flatten = (decodeData c ns.sum d).2 := by
   induction ns generalizing d with
   | nil => simp [decodeCalls, decodeData, decLoop_zero]
   | cons n ns ih =>
-    obtain ⟨h1, h2, h3⟩ := h
+    obtain ⟨h1, h3⟩ := h
     simp only [decodeCalls, List.flatten_cons, List.sum_cons]
     rw [ih _ h3]
-    by_cases hn : n = 0
-    · subst hn
-      simp [decodeData, decLoop_zero]
-    · unfold decodeData at h1 h2 ⊢
-      rw [decLoop_add c true n ns.sum d (by omega), if_pos h1]
-      simp only
-      rcases h2 with h2 | h2
-      · rw [h2]; simp [decLoop_zero]
-      · rw [decLoop_first_irrelevant c _ _ h2]
+    unfold decodeData at h1 ⊢
+    rcases h1 with h1 | h1
+    · rw [h1]; simp [decLoop_zero]
+    · rw [decLoop_add c n ns.sum d, if_pos h1]
+
+/-- a prefix of a call that was delivered completely is delivered completely -/
+theorem decLoop_prefix_full (c : Cfg) (a b : Nat) (d : DSt) (h : (decLoop c (a + b) d).2.length = a + b) :
+    (decLoop c a d).2.length = a := by
+  rw [decLoop_add] at h
+  split at h
+  · assumption
+  · have := decLoop_length_le c a d
+    omega
 
 end Sf.Dwvw.Proofs
